@@ -16,17 +16,19 @@ import (
 	"verif/vp"
 )
 
-func c02PluginCfg(p spec.C02Case) map[string]any {
+func c02PluginCfg(p spec.C02Case) map[string]any { return c02PluginCfgSide(p, p.Plugin) }
+
+func c02PluginCfgSide(p spec.C02Case, side spec.C02Side) map[string]any {
 	pc := map[string]any{}
 	ver := map[string]string{}
-	for _, v := range p.Plugin.Versioned {
+	for _, v := range side.Versioned {
 		ver[strconv.Itoa(v)] = p.Proto[strconv.Itoa(v)]
 	}
 	if len(ver) > 0 {
 		pc["versioned"] = ver
 	}
-	if p.Plugin.Legacy != nil {
-		pc["legacy"] = map[string]any{"version": *p.Plugin.Legacy, "proto": p.Proto[strconv.Itoa(*p.Plugin.Legacy)]}
+	if side.Legacy != nil {
+		pc["legacy"] = map[string]any{"version": *side.Legacy, "proto": p.Proto[strconv.Itoa(*side.Legacy)]}
 	}
 	return pc
 }
@@ -124,6 +126,51 @@ func TestC02(t *testing.T) {
 		}
 		_ = os.Getpid
 		_ = fmt.Sprint
+		if p.Plugin2 != nil {
+			// the same *ClientConfig object used for another launch (a supervisor restarting or upgrading
+			// its plugin): only the command changes
+			var o2 spec.C02Obs
+			pcfg2 := c02PluginCfgSide(p, *p.Plugin2)
+			pcfg2["ctl"] = ""
+			l2 := prepare(c.ID, "second", pcfg2, cfg, "cmd")
+			ok, _, _ := within(30*time.Second, func() {
+				_, err := l2.Client.Start()
+				o2.StartErr = errStr(err)
+				if err != nil {
+					return
+				}
+				o2.Negotiated = l2.Client.NegotiatedVersion()
+				o2.Protocol = string(l2.Client.Protocol())
+				cp, err := l2.Client.Client()
+				if err != nil {
+					o2.CallErr = "client: " + err.Error()
+					return
+				}
+				raw, err := cp.Dispense("kv")
+				if err != nil {
+					o2.CallErr = "dispense: " + err.Error()
+					return
+				}
+				cli := raw.(vp.Cli)
+				o2.HostTag = cli.HostTag()
+				m, err := cli.Do("tag")
+				if err != nil {
+					o2.CallErr = "call: " + err.Error()
+					return
+				}
+				o2.PluginTag = vp.Str(m, "label")
+			})
+			if !ok {
+				o2.CallErr = "hung 30s"
+			}
+			o2.Pid = l2.pid()
+			if o2.StartErr != "" {
+				o2.StateSoon = waitState(o2.Pid, 5*time.Second, "gone", "Z")
+			}
+			within(30*time.Second, l2.Client.Kill)
+			l2.hardKill()
+			o.Second = &o2
+		}
 		e.Ret("h", "Start", o)
 	})
 }
